@@ -73,18 +73,19 @@ pub struct Hist {
     pub ids: Vec<DeltaId>,
 }
 
-/// history: c0 <- c1 <- cA (on a), c1 <- cB (on b), {cA,cB} <- cM (merge on a), cM <- c5
+/// history: c0 <- c1 <- cA (on a), c0 <- cB (on b: shorter branch), {cA,cB} <- cM (merge on a), cM <- c5
 pub fn build(k: usize, nsym: usize) -> Hist {
     let mut points = Vec::new();
     let a = Rep::new();
     a.m.update(doc_with(&["a"], &["w".to_string()], "s")).unwrap();
     let c0 = checked_commit(&a, None);
     points.push((a.m.get_anchors(), state(&a.m)));
+    // the second replica forks here: its branch is one block shorter than a's
+    let mut b = Rep::new();
+    b.pull(&a);
     a.m.update(doc_with(&["a", "b"], &["x".to_string(), "y".to_string()], "t")).unwrap();
     let c1 = checked_commit(&a, meta("a"));
     points.push((a.m.get_anchors(), state(&a.m)));
-    let mut b = Rep::new();
-    b.pull(&a);
     a.m.update(any_doc(k, nsym)).unwrap();
     let mut ids = vec![c0, c1];
     if a.m.has_staging() {
